@@ -15,11 +15,11 @@ CHECKS = {
  "C02": ("exploration", SEQ + "restart as a generated step with an independently drawn reader configuration; dump before Close == dump after Open == model",
          "Histories x end offsets (biased to every distance from a block boundary) x (writer, reader) configuration pairs; Open must not fail or panic after a clean Close.",
          TB, "DESIGN.md 4 C02"),
- "C03": ("fault_enumeration", CRASH + "recovered dump must equal a prefix state within the interval the property allows; recovered database must stay usable",
-         "All crash positions of every generated run (process crash) and seeded power-loss cuts (nothing/all/torn/inside a chunk header/1-7 bytes before a block boundary); prefix-interval oracle; usability round after recovery.",
+ "C03": ("fault_enumeration", CRASH + "recovered dump must equal a prefix state within the interval the property allows; recovered database must stay usable; a fifth of the runs crash a database used by several clients under the seeded scheduler, judged by a search for a real-time-respecting, downward-closed order of the begun operations",
+         "All crash positions of every generated run (process crash) and seeded power-loss cuts (nothing/all/torn/inside a chunk header/1-7 bytes before a block boundary); prefix-interval oracle; usability round after recovery (a Put, fresh batches, a clean restart); schedules x crash positions for concurrent clients incl. a concurrent Merge.",
          TB + " Power loss loses a not-yet-synced tail from the end only; directory operations durable in program order.", "DESIGN.md 4 C03"),
- "C04": ("fault_enumeration", CRASH + "a batch is one mutation of the prefix oracle, so a partially visible batch equals no allowed state; Sync batches must survive power loss",
-         "All crash positions of batch workloads incl. multi-piece flushes across files; later histories with merges and restarts.",
+ "C04": ("fault_enumeration", CRASH + "a batch is one mutation of the prefix oracle, so a partially visible batch equals no allowed state; Sync batches must survive power loss; a fifth of the runs: batches committed by several concurrent clients, each batch one atomic step of the order searched for",
+         "All crash positions of batch workloads incl. multi-piece flushes across files; later histories with merges and restarts; schedules x crash positions for concurrent committers.",
          TB + " Same durability model as C03.", "DESIGN.md 4 C04"),
  "C05": ("exploration", SEQ + "layered overlay model for an open batch; concurrent arm: other clients while a batch is open, histories checked with porcupine",
          "Batch op sequences x on-disk placements (values in rotated files) x use-after-commit; interleavings against an open batch.",
@@ -27,8 +27,8 @@ CHECKS = {
  "C06": ("exploration", SEQ + "dumps before/after Merge and after the adopting and following restarts, journal-derived layout oracle; concurrent arm: merger vs one-writer-per-key writers",
          "Histories x output shapes (fewer/equal/more files) x restarts; interleavings of writes with the merge scan; adoption must actually happen.",
          TB, "DESIGN.md 4 C06"),
- "C07": ("fault_enumeration", CRASH + "two levels deep for Merge and adoption: every position of the recovery Open is crashed again, then a clean Open",
-         "All crash positions inside Merge and inside the adopting Open, second crash at every position of the retry, reopen-twice idempotence.",
+ "C07": ("fault_enumeration", CRASH + "two levels deep for Merge and adoption: every position of the recovery Open is crashed again, then a clean Open; a second Merge after recovering from a crash inside Merge; a fifth of the runs: Merge next to concurrent writers under the seeded scheduler",
+         "All crash positions inside Merge and inside the adopting Open, second crash at every position of the retry, reopen-twice idempotence, later history with a second merge; schedules x crash positions of a Merge racing writers.",
          TB + " Process crash only (the property says the process dies).", "DESIGN.md 4 C07"),
  "C08": ("exploration", CONC + "per-key histories (global event stamps) checked with porcupine against a register model; live dump at quiescence == dump after restart",
          "2..16 clients on 1..3 shared keys, optional concurrent Merge; random / sticky / PCT-style bounded-preemption schedules.",
